@@ -189,10 +189,10 @@ static int ref_rsa_decrypt(rsakey_t *K, const unsigned char *ct, unsigned char *
     return ok ? 0 : -1;
 }
 
-static const int rsa_lens_n = 10;
+static const int rsa_lens_n = 12;
 static int rsa_len_at(int k, int idx)
 {
-    int L[10] = { 0, 1, 2, 47, 48, k - 12, k - 11, k - 10, k - 3, k };
+    int L[12] = { 0, 1, 2, 47, 48, k - 12, k - 11, k - 10, k - 3, k, k - 2, k - 1 };
     return L[idx];
 }
 
@@ -375,17 +375,17 @@ static int run_pos(const case_t *c, mx_result_t *r)
         if (rc >= 0) dumphex("ciphertext", ct, (size_t) K->k);
         if (rc >= 0 && !should)
         {
-            snprintf(key, sizeof(key), "rsa-encrypt|%d|accepted-overlong-message", c->k);
+            snprintf(key, sizeof(key), "rsa-encrypt|accepted-overlong-message");
             violate(r, key, "psRsaEncryptPub encrypted %d bytes with a %d byte modulus (RFC 8017 7.2.1: mLen <= k-11)", len, K->k);
         }
         else if (rc < 0 && should)
         {
-            snprintf(key, sizeof(key), "rsa-encrypt|%d|rejected-valid-length", c->k);
+            snprintf(key, sizeof(key), "rsa-encrypt|rejected-valid-length");
             violate(r, key, "psRsaEncryptPub refused (rc=%d) a %d byte message with a %d byte modulus", rc, len, K->k);
         }
         else if (rc >= 0 && (ref_rsa_decrypt(K, ct, back, &bl) < 0 || bl != len || memcmp(back, pt, (size_t) len) != 0))
         {
-            snprintf(key, sizeof(key), "rsa-encrypt|%d|openssl-cannot-decrypt", c->k);
+            snprintf(key, sizeof(key), "rsa-encrypt|openssl-cannot-decrypt");
             violate(r, key, "OpenSSL does not recover the %d byte message from the psRsaEncryptPub ciphertext (got %d bytes)", len, bl);
         }
         cls = rc >= 0 ? "encrypted" : "refused";
@@ -465,13 +465,13 @@ static int run_pos(const case_t *c, mx_result_t *r)
         if (rc >= 0) dumphex("MatrixSSL plaintext", out, (size_t) explen);
         if (rc >= 0 && !should)
         {
-            snprintf(key, sizeof(key), "rsa-decrypt|%d|%s|accepted-invalid-padding", c->k, nm);
+            snprintf(key, sizeof(key), "rsa-decrypt|%s|accepted-invalid-padding", nm);
             violate(r, key, "psRsaDecryptPriv returned success for an invalid RSAES-PKCS1-v1_5 block (%s: message %d bytes, PS %d bytes, modulus %d; RFC 8017 7.2.2 step 3; OpenSSL reports a decryption error)",
                 nm, len, ps, k);
         }
         else if (should && (rc < 0 || memcmp(out, pt, (size_t) len) != 0))
         {
-            snprintf(key, sizeof(key), "rsa-decrypt|%d|%s|%s", c->k, nm, rc < 0 ? "rejected-valid" : "wrong-plaintext");
+            snprintf(key, sizeof(key), "rsa-decrypt|%s|%s", nm, rc < 0 ? "rejected-valid" : "wrong-plaintext");
             violate(r, key, "psRsaDecryptPriv rc=%d for a valid ciphertext of a %d byte message", rc, len);
         }
         (void) j;
